@@ -97,7 +97,7 @@ CLAIMS["C02"] = (
     "(tables regenerated from the source). Tied by correspondence on arbitrary data in every spelling incl. an exhaustive "
     "depth-1 block; dumpers by correspondence with Model/Dump.v incl. the union dumper's MRO dispatch over a user class "
     "hierarchy with a diamond; bytes-like types against a stdlib base64 reference.",
-    LOADNOTE + "Dumpers and base64 are tied by correspondence / reference only (no theorem yet beyond the model). One "
+    LOADNOTE + "Dumpers: outer-form theorems (iterable / fixed tuple / no-conversion scalars / Optional / class dispatch) over Model/Dump.v, tied by correspondence; base64 by a stdlib reference only. One "
     "defect repaired (ABCProxy).", "DESIGN.md section 5 C02", TECH)
 
 CLAIMS["C05"] = (
